@@ -22,6 +22,7 @@ import asyncio
 import logging
 import re
 import types
+import zlib
 from collections.abc import Awaitable, Callable
 from typing import Optional, Type, cast
 
@@ -769,9 +770,12 @@ class _GzipMessageDelegate(httputil.HTTPMessageDelegate):
             if chunk:
                 self._compressed_input_seen = True
             while compressed_data:
-                decompressed = self._decompressor.decompress(
-                    compressed_data, self._chunk_size
-                )
+                try:
+                    decompressed = self._decompressor.decompress(
+                        compressed_data, self._chunk_size
+                    )
+                except zlib.error as e:
+                    raise httputil.HTTPInputError("invalid gzip data: %s" % e)
                 if decompressed:
                     self._decompressed_body_size += len(decompressed)
                     max_body_size = (
